@@ -189,6 +189,22 @@ def _enum_class(term, reg: Registry):
             "Flag": enum.Flag, "IntFlag": enum.IntFlag}[kind]
     pyname = reg._pyname(name)
     emod = get_opt(term[4], "module") if len(term) > 4 else None
+    catch = get_opt(term[4], "missing") if len(term) > 4 else None
+    if catch is not None:
+        # an enum class with a _missing_ hook: every unknown value becomes the member `catch`
+        import types as _types
+        ns_members = [(m[0], concretize_value(m[1], reg)) for m in members]
+
+        def _body(ns, _ms=ns_members, _c=catch):
+            for k_, v_ in _ms:
+                ns[k_] = v_
+            ns["_missing_"] = classmethod(lambda cls_, value, _c=_c: cls_[_c])
+            ns["__module__"] = reg.submodule(emod).__name__ if emod else reg.modname
+        cls = _types.new_class(pyname, (base,), {}, _body)
+        cls.__qualname__ = pyname
+        reg.by_def[key] = cls
+        reg._register(cls, name, term, module=emod)
+        return cls
     cls = base(pyname, [(m[0], concretize_value(m[1], reg)) for m in members], module=reg.submodule(emod).__name__ if emod else reg.modname)
     cls.__qualname__ = pyname
     reg.by_def[key] = cls
